@@ -130,6 +130,250 @@ def stage_oracle_quote(rep, rng, n):
     return bad
 
 
+# ----------------------------------------------------------------------------- Make layer
+SYN = {'target': 0, 'dependency': 1, 'function': 2, 'shell': 3, 'clean': 4}
+
+
+def gen_frag(rng, depth=0):
+    """Returns (encoding, python_object) of one safe_str fragment."""
+    from bfg9000.safe_str import literal, shell_literal
+    from bfg9000.backends.make.syntax import syntax_string, Syntax
+    k = rng.random()
+    s = gen.arg_string(rng, None, maxlen=6, allow_empty=False)
+    if k < 0.15:
+        return [0, s], literal(s)
+    if k < 0.3:
+        return [1, s], shell_literal(s)
+    if k < 0.8 or depth >= 2:
+        return [2, s], s
+    # syntax_string with its own syntax / quoted flag
+    n = rng.randint(1, 3)
+    enc_bits, py_bits, last = [], [], None
+    for _ in range(n):
+        e, o = gen_frag(rng, depth + 1)
+        if last == e[0] and e[0] in (0, 1, 2):
+            continue
+        enc_bits.append(e); py_bits.append(o); last = e[0]
+    from bfg9000.safe_str import jbos
+    data = py_bits[0] if len(py_bits) == 1 else jbos(*py_bits)
+    if isinstance(data, jbos) and len(data.bits) != len(py_bits):
+        return [2, s], s
+    syn = rng.choice([None, 'function', 'shell', 'target'])
+    quoted = rng.random() < 0.5
+    return [4, enc_bits, [] if syn is None else [SYN[syn]], quoted], syntax_string(data, None if syn is None else Syntax[syn], quoted)
+
+
+def gen_jbos(rng):
+    from bfg9000.safe_str import jbos
+    n = rng.choice([1, 1, 1, 2, 3])
+    enc_bits, py_bits, last = [], [], None
+    for _ in range(n):
+        e, o = gen_frag(rng)
+        if last == e[0] and e[0] in (0, 1, 2):
+            continue
+        enc_bits.append(e); py_bits.append(o); last = e[0]
+    obj = py_bits[0] if len(py_bits) == 1 else jbos(*py_bits)
+    if len(py_bits) > 1 and len(obj.bits) != len(py_bits):
+        return gen_jbos(rng)
+    return enc_bits, obj
+
+
+def path_frag(rng, writer, shelly):
+    """A real Path object and the encoding of its realised bits."""
+    from bfg9000.path import Path, Root, InstallRoot
+    from bfg9000.safe_str import jbos, literal
+    from bfg9000.backends.make.syntax import Variable
+    comps = [gen.arg_string(rng, None, maxlen=5, allow_empty=False).replace('/', '_').replace('\\', '_') for _ in range(rng.randint(1, 3))]
+    comps = [c for c in comps if c not in ('.', '..') and not c.startswith('~') and ':' not in c[:2]] or ['x']
+    root = rng.choice([Root.srcdir, Root.builddir, InstallRoot.bindir])
+    try:
+        p = Path('/'.join(comps), root)
+    except ValueError:
+        p = Path('x', root)
+    real = p.realize(writer.path_vars, shelly)
+    bits = []
+    for b in (real.bits if isinstance(real, jbos) else [real]):
+        b = b.use() if isinstance(b, Variable) else b
+        bits.append([isinstance(b, literal), b.string if isinstance(b, literal) else b])
+    return [3, bits], p
+
+
+def stage_w_make(rep, rng, n):
+    from io import StringIO
+    from bfg9000.backends.make.syntax import Writer, Syntax, Makefile, Variable
+    uw, us = gen.uni_tables()
+    calls, impl = [], []
+    mk = Makefile('build.bfg')
+    # escape_str in the five syntaxes (+ the newline error branch)
+    words = CORPUS_WORDS + ['a\\ b', '\\#', '\\\\#', '~', '~a', 'a~', '\\~', 'a|b', 'a\\|b', 'a\nb', 'x\x0by', 'x\x1cy', 'x\x85y'] + \
+        [gen.arg_string(rng, rep) for _ in range(n)]
+    for s in words:
+        for name, num in SYN.items():
+            try:
+                iv = Writer.escape_str(s, Syntax[name])
+            except ValueError:
+                iv = None
+            calls.append(('make.escape_str', [us, s, num])); impl.append(iv)
+            rep.case('e:%s:%s' % (name, s), nontrivial(s))
+    # Writer.write on fragment trees and paths
+    for _ in range(n):
+        syn = rng.choice(list(SYN))
+        w = mk.writer(StringIO())
+        if rng.random() < 0.3:
+            e, o = path_frag(rng, w, syn in ('function', 'shell'))
+            enc_j = [e]
+        else:
+            enc_j, o = gen_jbos(rng)
+        try:
+            esc = w.write(o, Syntax[syn])
+            iv = (w.stream.getvalue(), bool(esc))
+        except ValueError:
+            iv = None
+        calls.append(('make.write', [uw, us, enc_j, SYN[syn], 0])); impl.append(iv)
+        rep.case('w:%s:%r' % (syn, enc_j), True)
+        rep.count('frag:' + ('path' if enc_j[0][0] == 3 else 'jbos%d' % len(enc_j)))
+    # _write_variable (value channel, with the # escaping) and write_shell
+    for _ in range(n // 2):
+        items_enc, items_py = [], []
+        for _ in range(rng.randint(1, 4)):
+            if rng.random() < 0.7:
+                s = gen.arg_string(rng, rep)
+                items_enc.append([[2, s]]); items_py.append(s)
+            else:
+                e, o = gen_jbos(rng)
+                items_enc.append(e); items_py.append(o)
+        w = mk.writer(StringIO())
+        try:
+            mk._write_variable(w, Variable('V'), items_py)
+            text = w.stream.getvalue()
+            assert text.startswith('V := ') and text.endswith('\n')
+            iv = text[5:-1]
+        except ValueError:
+            iv = None
+        calls.append(('make.write_value', [uw, us, items_enc, 3])); impl.append(iv)
+        w = mk.writer(StringIO())
+        try:
+            w.write_shell(items_py)
+            iv = w.stream.getvalue()
+        except ValueError:
+            iv = None
+        calls.append(('make.write_each', [uw, us, items_enc, 3])); impl.append(iv)
+        rep.case('v:%r' % (items_enc,), True)
+
+    def dec2(name, r):
+        if name in ('make.escape_str', 'make.write_each', 'make.write_value'):
+            return d_opt(d_str, r)
+        if name == 'make.write':
+            return d_opt(lambda x: (d_str(x[0]), d_bool(x[1])), r)
+        raise KeyError(name)
+    rep.sample({'stage': 'W:make', 'call': calls[-1][0], 'arg': calls[-1][1]})
+    return common.compare_model(rep, 'W:make', calls, impl, dec2)
+
+
+def make_value_of(text):
+    """Value GNU Make gives V after  V := text  (via $(info))."""
+    rc, _, out = shtools.make_run('V := ' + text + '\n$(info $(V))\nall:;@:\n')
+    if rc != 0:
+        return None
+    return out.split('\n')[0]
+
+
+def stage_r_make(rep, rng, n):
+    """MakeRead.v against /usr/bin/make: immediate assignment values and recipe lines."""
+    from bfg9000.shell import posix as pshell
+    uw, us = gen.uni_tables()
+    bad = 0
+    texts = ['a#b', 'a\\#b', 'a\\\\#b', 'a\\\\\\#b', "'a#b' c", 'x$$y', '  lead', 'a\\b', 'tr ', '$(U)x', '$Ux', 'a$$$$b']
+    for _ in range(n):
+        s = gen.arg_string(rng, None, maxlen=8, classes=[c for c in gen.CLASSES if c[0] not in ('unisp',)])
+        if rng.random() < 0.6:
+            s = s.replace('$', '$$')
+        texts.append(s)
+    texts = [t for t in texts if '\n' not in t and '\0' not in t and '\r' not in t and not t.endswith('\\')]
+    calls = [('make.assign_value', [[], t]) for t in texts]
+    raw = common.model_batch(calls)
+    acc = 0
+    for t, r in zip(texts, raw):
+        mv = d_opt(d_str, r)
+        if mv is None:
+            continue
+        acc += 1
+        rv = make_value_of(t)
+        rep.case('rv:' + t, nontrivial(t))
+        if rv != mv:
+            bad += 1
+            rep.fail('R:make_assign - Make model and /usr/bin/make disagree on the value of V := %r: model %r, make %r' % (t, mv, rv),
+                     {'obligation': 'R:make_assign', 'text': t, 'model': mv, 'make': rv}, found_input=False)
+    # recipe lines: model = recipe_shell_text ; sh.words, real = make + recorder
+    rec_ok = 0
+    for _ in range(n // 2):
+        args = [shtools.ARGVREC] + gen.arg_list(rng, None, maxn=3, maxlen=6)
+        args = [a for a in args if '\n' not in a and '\r' not in a and '\0' not in a]
+        line = '\t' + pshell.join(args).replace('$', '$$')
+        r1 = common.model_batch([('make.recipe_shell_text', [[], line])])[0]
+        t = d_opt(d_str, r1)
+        if t is None:
+            continue
+        mv = dec('sh.words', common.model_batch([('sh.words', [uw, t])])[0])
+        rc, recs, out = shtools.make_run('all:\n' + line + '\n')
+        rv = [shtools.ARGVREC] + recs[0]['argv'] if (rc == 0 and len(recs) == 1) else None
+        rec_ok += 1
+        rep.case('rr:' + line, True)
+        if rv != mv:
+            bad += 1
+            rep.fail('R:make_recipe - model and real make disagree on recipe %r: model %r, make %r' % (line, mv, rv),
+                     {'obligation': 'R:make_recipe', 'line': line, 'model': mv, 'make': rv, 'out': out[-300:]}, found_input=False)
+    rep.stage('R:make', assign_texts=len(texts), accepted_by_model=acc, recipe_lines=rec_ok, disagreements=bad)
+
+
+PREFIX_CHARS = '@-+'
+
+
+def classify_make_failure(channel, args):
+    cls = []
+    w0 = args[0] if args else ''
+    import re
+    if channel == 'recipe':
+        if re.match(r'^[A-Za-z_][A-Za-z0-9_]*=', w0) and not re.search(r"[^\w@%+=:,./-]", w0):
+            cls.append('cmdword-assignment-like')
+        if w0[:1] in PREFIX_CHARS and not re.search(r"[^\w@%+=:,./-]", w0):
+            cls.append('cmdword-recipe-prefix')
+    return tuple(cls)
+
+
+def stage_oracle_make(rep, rng, n):
+    """Direct check on the implementation: arguments written by the real Makefile writer (recipe channel and
+    variable channel) are delivered by the real GNU Make + /bin/sh to the recorder unchanged."""
+    from io import StringIO
+    from bfg9000.backends.make.syntax import Makefile, var
+    bad = 0
+    cases = [[w] for w in CORPUS_WORDS if w] + [gen.arg_list(rng, rep, maxn=4) for _ in range(n)]
+    for args in cases:
+        args = [a for a in args if not any(c in a for c in '\n\r\0')]
+        if not args:
+            continue
+        for channel in ('recipe', 'variable'):
+            mk = Makefile('build.bfg')
+            if channel == 'recipe':
+                mk.rule('all', recipe=[[shtools.ARGVREC] + args], phony=True)
+            else:
+                mk.variable('V', args)
+                mk.rule('all', recipe=[[shtools.ARGVREC, var('V')]], phony=True)
+            o = StringIO()
+            mk.write(o)
+            rc, recs, out = shtools.make_run(o.getvalue(), 'all')
+            got = recs[0]['argv'] if (rc == 0 and len(recs) == 1) else None
+            rep.case('om:%s:%r' % (channel, args), any(nontrivial(a) for a in args))
+            rep.count('channel:' + channel)
+            if got != args:
+                if rep.fail('Make backend, %s channel: arguments %r are delivered as %r' % (channel, args, got),
+                            {'channel': channel, 'args': args, 'delivered': got, 'makefile': o.getvalue(), 'make_output': out[-400:]},
+                            classes=classify_make_failure(channel, args)):
+                    bad += 1
+    rep.stage('oracle:makefile->make->sh', cases=len(cases) * 2, failures=bad)
+    return bad
+
+
 def run(rep):
     rng = random.Random(rep.seed)
     thorough = rep.tier == 'thorough'
@@ -137,7 +381,10 @@ def run(rep):
     n = 4000 if thorough else 600
     dis = stage_w_posix(rep, rng, n)
     stage_r_dash(rep, rng, n // 2)
+    dis += stage_w_make(rep, rng, n // 2)
+    stage_r_make(rep, rng, 300 if thorough else 60)
     found = stage_oracle_quote(rep, rng, n // 2 * (10 if dis else 1))
+    found += stage_oracle_make(rep, rng, (400 if thorough else 60) * (5 if dis else 1))
     if dis and not found:
         i, call, iv, mv = dis[0]
         rep.fail('W:%s - model and implementation disagree (%d cases), e.g. %r: impl %r, model %r' % (
